@@ -13,6 +13,7 @@ import (
 	"math/big"
 	"strings"
 
+	sdk "github.com/cosmos/cosmos-sdk/types"
 	"github.com/ethereum/go-ethereum/crypto"
 
 	"github.com/circlefin/noble-cctp/x/cctp/types"
@@ -21,7 +22,7 @@ import (
 func init() {
 	profiles["flows"] = func(g *Gen, n int) { genFlows(g, n, flowMix{}) }
 	profiles["receive-history"] = func(g *Gen, n int) { genFlows(g, n, flowMix{receive: 8, admin: 2, pool: true}) }
-	profiles["outbound"] = func(g *Gen, n int) { genFlows(g, n, flowMix{deposit: 5, send: 3, replace: 4, admin: 1}) }
+	profiles["outbound"] = func(g *Gen, n int) { genFlows(g, n, flowMix{deposit: 5, send: 3, replace: 4, admin: 1, oddAccount: true}) }
 	profiles["mint-values"] = func(g *Gen, n int) { genFlows(g, n, flowMix{receive: 8, deposit: 1, admin: 1, genesisCase: true}) }
 	profiles["replace"] = func(g *Gen, n int) { genFlows(g, n, flowMix{deposit: 3, send: 3, replace: 8, admin: 1}) }
 	profiles["attest"] = genAttest
@@ -33,6 +34,7 @@ func init() {
 
 type flowMix struct {
 	deposit, send, receive, replace, admin int
+	oddAccount                             bool // one of the accounts has an address that is not 20 bytes long
 	pool                                   bool // draw (domain, nonce) from a small colliding pool
 	genesisCase                            bool // install mixed-case local tokens through genesis
 }
@@ -99,6 +101,19 @@ func flowScn(g *Gen, mix flowMix) *Flow {
 		default:
 			s.bals[s.A(i)] = new(big.Int).Lsh(big.NewInt(1), 260)
 		}
+	}
+	if mix.oddAccount {
+		// one account whose address is not 20 bytes long (the SDK accepts 1..255): exercises copy(sender[12:], addr)
+		old := s.accts[3].String()
+		s.accts[3] = sdk.AccAddress(g.r.Bytes(g.pickInt([]int{1, 8, 19, 21, 32})))
+		if b, ok := s.bals[old]; ok {
+			delete(s.bals, old)
+			s.bals[s.accts[3].String()] = b
+		}
+		if s.tokctl == old {
+			s.tokctl = s.accts[3].String()
+		}
+		g.stats.Mut(fmt.Sprintf("account-of-%d-bytes", len(s.accts[3])))
 	}
 	f := &Flow{Scn: s, g: g, used: map[[2]uint64]bool{}}
 	f.pool = [][2]uint64{{0, 0}, {0xffffffff, 0xffffffffffffffff}, {0, 1}, {1, 0}, {1, 1}, {2, 2}, {0, 1 << 32}, {1, 256}}
